@@ -25,7 +25,8 @@ GRID_N = {'quick': 12, 'thorough': 40}
 
 
 def strategy(tier):
-    return S.pipeline_case(WEIGHTS, vary=('msa', 'okta', 'sep'), p_default_prms=0.15)
+    return S.pipeline_case(WEIGHTS, vary=('msa', 'okta', 'sep'), p_default_prms=0.15, anomalies=True,
+                           anomaly_negative=False)
 
 
 def near_edge(n, total, max0, max8):
